@@ -58,11 +58,40 @@ def re_models(record=None):
                 raise Unmodelled(f"invalid pattern {pat!r}: {e}", node)
             if fn_name == "findall":
                 return [tuple(x) if isinstance(x, tuple) else x for x in r]
-            return Obj("Match", "match", (), {"__bool__": True}) if r is not None else None
+            if fn_name == "split":
+                return list(r)
+            if fn_name == "finditer":
+                return [_match_obj(m_) for m_ in r]
+            return _match_obj(r) if r is not None else None
 
         return m
 
-    return {f"re.{n}": wrap(n) for n in ("match", "fullmatch", "search", "findall", "sub")}
+    return {f"re.{n}": wrap(n) for n in ("match", "fullmatch", "search", "findall", "finditer", "sub", "split")}
+
+
+def _match_obj(m_):
+    return Obj("Match", "match", (), {"__bool__": True, "groups": (m_.group(0),) + tuple(m_.groups()), "groupdict": dict(m_.groupdict())})
+
+
+def match_method_models():
+    def group(ev, recv, args, kw, node):
+        gs = recv.attrs["groups"]
+        if not args:
+            return gs[0]
+        vals = []
+        for a in args:
+            if isinstance(a, int) and 0 <= a < len(gs):
+                vals.append(gs[a])
+            elif isinstance(a, str) and a in recv.attrs["groupdict"]:
+                vals.append(recv.attrs["groupdict"][a])
+            else:
+                from ..absint import Raised
+
+                raise Raised("IndexError", node)
+        return vals[0] if len(vals) == 1 else tuple(vals)
+
+    return {("Match", "group"): group, ("Match", "groups"): lambda ev, r, a, k, n: tuple(r.attrs["groups"][1:]),
+            ("Match", "groupdict"): lambda ev, r, a, k, n: dict(r.attrs["groupdict"]), ("Match", "__getitem__"): group}
 
 
 def sig_obj_from(out):
@@ -71,7 +100,7 @@ def sig_obj_from(out):
 
 def run_from_string(P, text, record=None):
     fi = P.func("grid_ufunc:_parse_signature_from_string")
-    ev = Evaluator(P, models=re_models(record))
+    ev = Evaluator(P, models=re_models(record), method_models=match_method_models())
     return ev.run_paths(fi, lambda: dict(signature=text))
 
 
@@ -226,7 +255,7 @@ def _type_hints(ctx, P):
         return NotImplemented
 
     def run(hints):
-        ev = Evaluator(P, models=re_models(), call_hook=hasattr_hook)
+        ev = Evaluator(P, models=re_models(), method_models=match_method_models(), call_hook=hasattr_hook)
         return ev.run_paths(fi, lambda: dict(hints=dict(hints)))
 
     plain = Obj("type", "np.ndarray", (), {"_name": "ndarray"})
